@@ -78,7 +78,7 @@ def _need(mod, name):
 # shims
 # ----------------------------------------------------------------------------------------------
 class SockState(object):
-    __slots__ = ('id', 'closed', 'shutdown', 'connected', 'role', 'tls', 'leftover', 'cur', 'nwrites', '__weakref__')
+    __slots__ = ('id', 'closed', 'shutdown', 'connected', 'role', 'tls', 'leftover', 'cur', 'nwrites', 'handed', '__weakref__')
 
     def __init__(self, i):
         self.id = i
@@ -90,6 +90,7 @@ class SockState(object):
         self.leftover = b''
         self.cur = None
         self.nwrites = 0
+        self.handed = False
 
 
 class SimSocket(object):
@@ -129,6 +130,8 @@ class SimSocket(object):
             raise OSError(9, 'Bad file descriptor (sim)')
         idx = w.nwrites
         w.nwrites += 1
+        if data[:4] == b'GET ':
+            self.st.handed = True       # the upgrade request is being written: this socket belongs to the session now
         r = w.conn_write_outcome(idx)
         if r != 'ok':
             fr, rest = codec.decode_client_frames(data)
@@ -565,6 +568,19 @@ class World(object):
             n = len(self.conn.get('stream') or [])
             steps = [{"kind": "data", "items": 1}] * n
         s = dict(steps[i]) if i < len(steps) else {"kind": "eof"}
+        if s['kind'] == 'drain_item':
+            # the next stream item trickles in one byte per read, `dt` ticks apart (first byte after `first_dt`)
+            b = self.concretise_stream()
+            end = self.item_ends[self.sitem] if self.sitem < len(self.item_ends) else len(b)
+            if self.spos >= end:
+                self.cur['steps'] = i + 1
+                self.cur.pop('trickling', None)
+                if self.sitem < len(self.item_ends):
+                    self.sitem += 1
+                return self.next_step()
+            dt = s.get('dt', 1) if self.cur.get('trickling') else s.get('first_dt', 0)
+            self.cur['trickling'] = True
+            return self._take_bytes(1, dt)
         if s['kind'] == 'drain':
             # repeat reads of `bytes` bytes (or seeded random sizes) until the scripted stream is exhausted
             b = self.concretise_stream()
@@ -592,6 +608,15 @@ class World(object):
                 self.spos = end
                 while self.sitem < len(self.item_ends) and self.item_ends[self.sitem] <= end:
                     self.sitem += 1
+        return s
+
+    def _take_bytes(self, n, dt):
+        b = self.stream_bytes
+        end = min(len(b), self.spos + n)
+        s = {"kind": "data", "dt": dt, "bytes": b[self.spos:end]}
+        self.spos = end
+        while self.sitem < len(self.item_ends) and self.item_ends[self.sitem] <= end:
+            self.sitem += 1
         return s
 
     def wait(self, fd, timeout):
@@ -647,7 +672,7 @@ def _k_wait(self, want, timeout):
     if k['bursts'] is None:
         data = self.concretise_stream()
         tr = self.sc['transport']
-        sizes = [self.http_len] + list(tr.get('bursts', []))
+        sizes = ([] if tr.get('reply_shares_burst') else [self.http_len]) + list(tr.get('bursts', []))
         rest = len(data) - sum(sizes)
         if rest > 0:
             sizes.append(rest)
@@ -994,7 +1019,7 @@ def run_scenario(sc):
     if sc.get('collect', state['abandon'] is not None):
         gc.collect()
     world.rec({"k": "end",
-               "socks": [{"id": s.id, "closed": s.closed, "alive": world.sockrefs[s.id]() is not None}
+               "socks": [{"id": s.id, "closed": s.closed, "alive": world.sockrefs[s.id]() is not None, "handed": s.handed}
                          for s in world.socks],
                "sels": [{"closed": s['closed']} for s in world.sels]})
     return world.log, ws
